@@ -5,6 +5,9 @@ import LaunchpadModel.Lemmas.WlLoops
 namespace LP.WlMembers
 open LP
 
+/-- every key of a map passed `addr_validate` -/
+def AllValid (l : List Member) : Prop := ∀ x ∈ keys l, validAddr x = true
+
 /-- The accounting invariant. -/
 structure WlInv (s : WL) : Prop where
   /-- `num_members` = number of `(stage, address)` entries actually stored -/
@@ -20,6 +23,8 @@ structure WlInv (s : WL) : Prop where
   bal : s.bank.bal = s.stray
   /-- every fee left the contract again: burned or forwarded to the fair-burn pool -/
   burnt : s.bank.burned + s.bank.pool = s.feesPaid
+  /-- stored addresses are valid ones (the immutable whitelist stores raw strings) -/
+  valid : s.kind ≠ .immutable → AllValid s.members ∧ ∀ g ∈ s.stages, AllValid g.members
 
 theorem mustPay_mayPay {funds : List Coin} {d p : Nat} (h : mustPay funds d = .ok p) : mayPay funds d = .ok p ∧ p ≠ 0 := by
   unfold mustPay at h
@@ -89,7 +94,7 @@ theorem incr_inv {s s' : WL} {funds : List Coin} {limit : Nat} (hi : WlInv s) (h
   simp only [Except.ok.injEq] at h; subst h
   have hb := fee_bank hpay hfee hmsgs hbank
   have hc := hi.capacity hk
-  refine ⟨hi.count_total, hi.flat_sorted, hi.stages_ok, fun _ => ⟨by simp only []; omega, hg.2⟩, ?_, ?_, ?_⟩
+  refine ⟨hi.count_total, hi.flat_sorted, hi.stages_ok, fun _ => ⟨by simp only []; omega, hg.2⟩, ?_, ?_, ?_, hi.valid⟩
   · simp only []
     rw [hi.fees, hfee]
     exact upgradeFee_telescope s.kind (Nat.le_of_lt hg.1)
@@ -98,7 +103,7 @@ theorem incr_inv {s s' : WL} {funds : List Coin} {limit : Nat} (hi : WlInv s) (h
 
 /-- attaching funds to a message that charges nothing changes the balance and the `stray` ghost alike -/
 theorem tipped_inv {s : WL} (tip : Nat) (hi : WlInv s) : WlInv (tipped s tip) := by
-  refine ⟨hi.count_total, hi.flat_sorted, hi.stages_ok, hi.capacity, hi.fees, ?_, hi.burnt⟩
+  refine ⟨hi.count_total, hi.flat_sorted, hi.stages_ok, hi.capacity, hi.fees, ?_, hi.burnt, hi.valid⟩
   simp only [tipped]; rw [hi.bal]
 
 theorem AddSpec.bound_le {cfg limit l n st a n' st' a'} (r : AddSpec cfg limit l n st a n' st' a') :
@@ -125,7 +130,17 @@ theorem add_inv {s s' : WL} {sender tip stage : Nat} {ms : List Member} (hi : Wl
     have r := addLoop_spec _ _ _ _ _ _ _ _ _ hgok.1 hloop
     apply tipped_inv
     have hset := stageTotal_set s.stages stage g { g with members := st, count := g.count + added } hg
-    refine ⟨?_, hi.flat_sorted, ?_, fun _ => ⟨r.cap rfl hc.1, hc.2⟩, hi.fees, hi.bal, hi.burnt⟩
+    have hv := hi.valid hk
+    refine ⟨?_, hi.flat_sorted, ?_, fun _ => ⟨r.cap rfl hc.1, hc.2⟩, hi.fees, hi.bal, hi.burnt, fun _ => ⟨hv.1, ?_⟩⟩
+    rotate_right
+    · intro g' hg'
+      rcases mem_set_imp _ _ _ _ hg' with e | e
+      · subst e
+        intro x hx
+        rcases (r.mem x).mp hx with h1 | h1
+        · exact hv.2 g hmem x h1
+        · exact r.valid x h1
+      · exact hv.2 g' e
     · have h1 := hi.count_total
       have h2 := r.count
       simp only [storedTotal] at h1 ⊢
@@ -145,7 +160,13 @@ theorem add_inv {s s' : WL} {sender tip stage : Nat} {ms : List Member} (hi : Wl
     simp only [Except.ok.injEq] at h; subst h
     have r := addLoop_spec _ _ _ _ _ _ _ _ _ hi.flat_sorted hloop
     apply tipped_inv
-    refine ⟨?_, r.sorted, hi.stages_ok, fun _ => ⟨r.cap rfl hc.1, hc.2⟩, hi.fees, hi.bal, hi.burnt⟩
+    have hv := hi.valid hk
+    refine ⟨?_, r.sorted, hi.stages_ok, fun _ => ⟨r.cap rfl hc.1, hc.2⟩, hi.fees, hi.bal, hi.burnt, fun _ => ⟨?_, hv.2⟩⟩
+    rotate_right
+    · intro x hx
+      rcases (r.mem x).mp hx with h1 | h1
+      · exact hv.1 x h1
+      · exact r.valid x h1
     have h1 := hi.count_total
     have h2 := r.count
     simp only [storedTotal] at h1 ⊢
@@ -176,7 +197,15 @@ theorem remove_inv {s s' : WL} {sender now tip stage : Nat} {as : List Nat} (hi 
     have q := removeLoop_spec _ _ _ _ _ _ _ hgok.1 hloop
     apply tipped_inv
     have hset := stageTotal_set s.stages stage g { g with members := st, count := g.count - removed } hg
-    refine ⟨?_, hi.flat_sorted, ?_, fun _ => ⟨Nat.le_trans q.le hc.1, hc.2⟩, hi.fees, hi.bal, hi.burnt⟩
+    have hv := hi.valid hk
+    refine ⟨?_, hi.flat_sorted, ?_, fun _ => ⟨Nat.le_trans q.le hc.1, hc.2⟩, hi.fees, hi.bal, hi.burnt, fun _ => ⟨hv.1, ?_⟩⟩
+    rotate_right
+    · intro g' hg'
+      rcases mem_set_imp _ _ _ _ hg' with e | e
+      · subst e
+        intro x hx
+        exact hv.2 g hmem x ((q.mem x).mp hx).1
+      · exact hv.2 g' e
     · have h1 := hi.count_total
       have h2 := q.count
       simp only [storedTotal] at h1 ⊢
@@ -198,7 +227,10 @@ theorem remove_inv {s s' : WL} {sender now tip stage : Nat} {as : List Nat} (hi 
     simp only [Except.ok.injEq] at h; subst h
     have q := removeLoop_spec _ _ _ _ _ _ _ hi.flat_sorted hloop
     apply tipped_inv
-    refine ⟨?_, q.sorted, hi.stages_ok, fun _ => ⟨Nat.le_trans q.le hc.1, hc.2⟩, hi.fees, hi.bal, hi.burnt⟩
+    have hv := hi.valid hk
+    refine ⟨?_, q.sorted, hi.stages_ok, fun _ => ⟨Nat.le_trans q.le hc.1, hc.2⟩, hi.fees, hi.bal, hi.burnt, fun _ => ⟨?_, hv.2⟩⟩
+    rotate_right
+    · intro x hx; exact hv.1 x ((q.mem x).mp hx).1
     have h1 := hi.count_total
     have h2 := q.count
     simp only [storedTotal] at h1 ⊢
@@ -221,7 +253,17 @@ theorem addStage_inv {s s' : WL} {sender now tip start stop : Nat} {ms : List Me
   simp only [Except.ok.injEq] at h; subst h
   have r := addLoop_spec _ _ _ _ _ _ _ _ _ sortedKeys_nil hloop
   apply tipped_inv
-  refine ⟨?_, hi.flat_sorted, ?_, fun _ => ⟨r.cap rfl hc.1, hc.2⟩, hi.fees, hi.bal, hi.burnt⟩
+  have hv := hi.valid hk
+  refine ⟨?_, hi.flat_sorted, ?_, fun _ => ⟨r.cap rfl hc.1, hc.2⟩, hi.fees, hi.bal, hi.burnt, fun _ => ⟨hv.1, ?_⟩⟩
+  rotate_right
+  · intro g' hg'
+    rcases List.mem_append.mp hg' with e | e
+    · exact hv.2 g' e
+    · simp only [List.mem_singleton] at e; subst e
+      intro x hx
+      rcases (r.mem x).mp hx with h1 | h1
+      · simp [keys] at h1
+      · exact r.valid x h1
   · have h1 := hi.count_total
     have h2 := r.count
     simp only [storedTotal, stageTotal_append, stageTotal_cons, stageTotal_nil] at h1 ⊢
@@ -256,7 +298,9 @@ theorem removeStage_inv {s s' : WL} {sender now tip stage : Nat} (hi : WlInv s) 
   have hc := hi.capacity hk
   apply tipped_inv
   have htd := stageTotal_take_drop s.stages stage
-  refine ⟨?_, hi.flat_sorted, ?_, fun _ => ⟨by simp only []; omega, hc.2⟩, hi.fees, hi.bal, hi.burnt⟩
+  have hv := hi.valid hk
+  refine ⟨?_, hi.flat_sorted, ?_, fun _ => ⟨by simp only []; omega, hc.2⟩, hi.fees, hi.bal, hi.burnt,
+    fun _ => ⟨hv.1, fun g' hg' => hv.2 g' (List.mem_of_mem_take hg')⟩⟩
   · have h1 := hi.count_total
     simp only [storedTotal] at h1 ⊢
     omega
@@ -266,7 +310,11 @@ theorem removeStage_inv {s s' : WL} {sender now tip stage : Nat} (hi : WlInv s) 
 theorem env_inv {s : WL} (admins : List Nat) (start stop : Nat) (times : List (Nat × Nat)) (hi : WlInv s) :
     WlInv { s with admins := admins, start := start, stop := stop, stages := setTimes s.stages times } := by
   have r := setTimes_spec s.stages times
-  refine ⟨?_, hi.flat_sorted, ?_, hi.capacity, hi.fees, hi.bal, hi.burnt⟩
+  refine ⟨?_, hi.flat_sorted, ?_, hi.capacity, hi.fees, hi.bal, hi.burnt, fun hk => ⟨(hi.valid hk).1, ?_⟩⟩
+  rotate_right
+  · intro g hg
+    obtain ⟨g0, h0, hm, _⟩ := r.2.2 g hg
+    rw [AllValid, hm]; exact (hi.valid hk).2 g0 h0
   · have h1 := hi.count_total
     simp only [storedTotal] at h1 ⊢
     rw [r.1]; exact h1
@@ -341,7 +389,7 @@ theorem sorted_zero_map (l : List Nat) : SortedKeys ((sortDedup l).map (fun a =>
   unfold SortedKeys; rw [keys_map_zero]; exact sorted_sortDedup _
 
 theorem instFlat_spec {k : Kind} {w : Option Nat} {limit : Nat} {ms : List Member} {num : Nat} {st : List Member}
-    (h : instFlatMembers k w limit ms = .ok (num, st)) : num = st.length ∧ SortedKeys st ∧ num ≤ limit := by
+    (h : instFlatMembers k w limit ms = .ok (num, st)) : num = st.length ∧ SortedKeys st ∧ num ≤ limit ∧ AllValid st := by
   unfold instFlatMembers at h
   dsimp only at h
   split at h
@@ -358,7 +406,11 @@ theorem instFlat_spec {k : Kind} {w : Option Nat} {limit : Nat} {ms : List Membe
     have hb := addLoop_len_le _ _ _ _ _ _ _ _ _ hloop
     have hc := r.count
     simp only [List.length_nil] at hc hb
-    exact ⟨by omega, r.sorted, by omega⟩
+    refine ⟨by omega, r.sorted, by omega, ?_⟩
+    intro x hx
+    rcases (r.mem x).mp hx with h1 | h1
+    · simp [keys] at h1
+    · exact r.valid x h1
   · rename_i hf
     have hf' : k.isFlex = false := by simpa using hf
     split at h
@@ -367,12 +419,14 @@ theorem instFlat_spec {k : Kind} {w : Option Nat} {limit : Nat} {ms : List Membe
     simp only [Except.ok.injEq, Prod.mk.injEq] at h
     obtain ⟨rfl, rfl⟩ := h
     have r := saveAll_fresh_length hsave (sorted_prep hf' ms)
-    exact ⟨r.2.1.symm, r.1, by omega⟩
+    refine ⟨r.2.1.symm, r.1, by omega, ?_⟩
+    intro x hx
+    exact saveAll_valid _ _ _ hsave x ((r.2.2 x).mp hx)
 
 theorem instStages_spec (k : Kind) (w : Option Nat) (limit : Nat) :
     ∀ (ts : List (Nat × Nat)) (mss : List (List Member)) (num : Nat) (gs : List Stage) (n : Nat),
       instStages k w limit ts mss num = .ok (gs, n) →
-      n = num + stageTotal gs ∧ (∀ g ∈ gs, SortedKeys g.members ∧ g.count = g.members.length) ∧
+      n = num + stageTotal gs ∧ (∀ g ∈ gs, SortedKeys g.members ∧ g.count = g.members.length ∧ AllValid g.members) ∧
       stageTotal gs ≤ (mss.map (fun ms => (prep k ms).length)).sum := by
   intro ts
   induction ts with
@@ -409,7 +463,12 @@ theorem instStages_spec (k : Kind) (w : Option Nat) (limit : Nat) :
         · rw [stageTotal_cons]; simp only []; omega
         · intro g hg
           rcases List.mem_cons.mp hg with e | e
-          · subst e; exact ⟨r.sorted, by simp only []; omega⟩
+          · subst e
+            refine ⟨r.sorted, by simp only []; omega, ?_⟩
+            intro x hx
+            rcases (r.mem x).mp hx with h1 | h1
+            · simp [keys] at h1
+            · exact r.valid x h1
           · exact q.2.1 g e
         · rw [stageTotal_cons]; simp only [List.map_cons, List.sum_cons]; omega
       · rename_i hf
@@ -428,7 +487,10 @@ theorem instStages_spec (k : Kind) (w : Option Nat) (limit : Nat) :
         · rw [stageTotal_cons]; simp only []; omega
         · intro g hg
           rcases List.mem_cons.mp hg with e | e
-          · subst e; exact ⟨r.1, by simp only []; omega⟩
+          · subst e
+            refine ⟨r.1, by simp only []; omega, ?_⟩
+            intro x hx
+            exact saveAll_valid _ _ _ hsave x ((r.2.2 x).mp hx)
           · exact q.2.1 g e
         · rw [stageTotal_cons]; simp only [List.map_cons, List.sum_cons]; omega
 
@@ -446,7 +508,7 @@ theorem inst_inv {k : Kind} {m : InstMsg} {s : WL} (h : instantiate k m = .ok s)
     · exact absurd h (by simp)
     simp only [Except.ok.injEq] at h; subst h
     have hs := sorted_zero_map (keys m.members)
-    refine ⟨?_, (foldl_saveM_spec _ _ sortedKeys_nil).1, by simp, fun hk => absurd rfl hk, ?_, rfl, rfl⟩
+    refine ⟨?_, (foldl_saveM_spec _ _ sortedKeys_nil).1, by simp, fun hk => absurd rfl hk, ?_, rfl, rfl, fun hk => absurd rfl hk⟩
     · simp only [storedTotal, stageTotal_nil]; rw [foldl_saveM_fresh_length hs]; rfl
     · simp [tiers_zero]
   · rename_i hk
@@ -493,7 +555,8 @@ theorem inst_inv {k : Kind} {m : InstMsg} {s : WL} (h : instantiate k m = .ok s)
       rename_i gs num hst
       simp only [Except.ok.injEq] at h; subst h
       have r := instStages_spec _ _ _ _ _ _ _ _ hst
-      refine ⟨?_, sortedKeys_nil, r.2.1, fun _ => ⟨?_, hl⟩, ?_, rfl, ?_⟩
+      refine ⟨?_, sortedKeys_nil, fun g hg => ⟨(r.2.1 g hg).1, (r.2.1 g hg).2.1⟩, fun _ => ⟨?_, hl⟩, ?_, rfl, ?_,
+        fun _ => ⟨by intro x hx; simp [keys] at hx, fun g hg => (r.2.1 g hg).2.2⟩⟩
       · simp only [storedTotal, List.length_nil]; omega
       · simp only []; omega
       · simp only []; rw [hfee]; rfl
@@ -503,7 +566,7 @@ theorem inst_inv {k : Kind} {m : InstMsg} {s : WL} (h : instantiate k m = .ok s)
       rename_i num st hfl
       simp only [Except.ok.injEq] at h; subst h
       have r := instFlat_spec hfl
-      refine ⟨?_, r.2.1, by simp, fun _ => ⟨r.2.2, hl⟩, ?_, rfl, ?_⟩
+      refine ⟨?_, r.2.1, by simp, fun _ => ⟨r.2.2.1, hl⟩, ?_, rfl, ?_, fun _ => ⟨r.2.2.2, by simp⟩⟩
       · simp only [storedTotal, stageTotal_nil]; omega
       · simp only []; rw [hfee]; rfl
       · simp only [emptyBank]; omega
